@@ -176,18 +176,61 @@ func (c *Ctx) randSrc(pkgs []*packages.Package, repo bool) {
 	if len(seeds) == 0 {
 		c.Violation("RANDSRC", "seed/no-call", token.NoPos, "math/rand.Seed is never called: --seed has no effect").Clause = "same seed, same output"
 	}
-	for _, s := range seeds {
-		inRootPre := false
-		for i, n := range s.path {
+	pathInRootPre := func(path []ast.Node) bool {
+		for i, n := range path {
 			if kv, ok := n.(*ast.KeyValueExpr); ok {
 				if id, ok := kv.Key.(*ast.Ident); ok && id.Name == "PersistentPreRun" && i > 0 {
 					// the composite literal must be the initialiser of RootCmd
-					for _, m := range s.path[:i] {
+					for _, m := range path[:i] {
 						if vs, ok := m.(*ast.ValueSpec); ok && len(vs.Names) == 1 && vs.Names[0].Name == "RootCmd" {
-							inRootPre = true
+							return true
 						}
 					}
 				}
+			}
+		}
+		return false
+	}
+	for _, s := range seeds {
+		inRootPre := pathInRootPre(s.path)
+		if !inRootPre {
+			// the seeding extracted into an unexported function that is called from the root
+			// command's PersistentPreRun and from nowhere else (and is never used as a value)
+			var fd *ast.FuncDecl
+			for _, n := range s.path {
+				if d, ok := n.(*ast.FuncDecl); ok {
+					fd = d
+				}
+				if _, ok := n.(*ast.FuncLit); ok {
+					fd = nil
+				}
+			}
+			if fd != nil && fd.Recv == nil && !ast.IsExported(fd.Name.Name) {
+				fobj := s.p.TypesInfo.Defs[fd.Name]
+				inside, outside := 0, 0
+				for _, p := range pkgs {
+					for _, f := range p.Syntax {
+						walkStack(f, func(n ast.Node, stack []ast.Node) bool {
+							id, ok := n.(*ast.Ident)
+							if !ok || p.TypesInfo.Uses[id] != fobj || fobj == nil {
+								return true
+							}
+							isCall := false
+							if len(stack) > 0 {
+								if ce, ok := stack[len(stack)-1].(*ast.CallExpr); ok && unparen(ce.Fun) == ast.Expr(id) {
+									isCall = true
+								}
+							}
+							if isCall && pathInRootPre(stack) {
+								inside++
+							} else {
+								outside++
+							}
+							return true
+						})
+					}
+				}
+				inRootPre = inside > 0 && outside == 0
 			}
 		}
 		argOK := seedVar != nil && len(s.call.Args) == 1 && identObj(s.p.TypesInfo, s.call.Args[0]) == seedVar
